@@ -14,6 +14,7 @@
 -/
 import Proofs.GoTieNonce
 import Proofs.GoTieStreamR
+import Proofs.GoTieWitnessA
 namespace AgeModel
 namespace Tie.C02
 
@@ -62,6 +63,14 @@ theorem reader_new_rel {α : Type} (a : α) (data : Bytes) (fail : Bool) :
     GoTie.RRel (⟨a, ⟨data, fail⟩, 0, 0, List.replicate 65552 0, none, List.replicate 12 0⟩ : Extracted.stream_Reader α)
       (AgeModel.Stream.Reader.new ⟨data, fail⟩) :=
   GoTie.reader_new_rel a data fail
+
+/-- **the assumption structures this file's theorems take are satisfiable** (for a lawful toy primitive suite
+    with the 16-byte tag, where they mention primitives): none of the theorems above is vacuous. The instances are in
+    `Proofs/GoTieWitnessA.lean` / `GoTieWitnessB.lean`. -/
+theorem assumptions_satisfiable :
+    Prims.toy16.Correct ∧ Prims.toy16.aead.NonceSep ∧ Prims.toy16.aead.T = 16 ∧
+    (∀ k : Bytes, Nonempty (GoTie.AeadEnv Unit AEAD.toy16 k)) :=
+  ⟨Prims.toy16_correct, AEAD.toy16_nonceSep, rfl, (fun k => ⟨GoTie.AeadEnv.witness k⟩)⟩
 
 end Tie.C02
 end AgeModel
